@@ -525,7 +525,15 @@ func brokerPhase() {
 			if su.restoreAt > 0 && len(h) > 1 {
 				continue
 			}
-			st := mc.Explore(mc.Options{MaxDeviations: -1}, func(c *mc.Ctx) {
+			// every connection the server opens is answered by a chosen behaviour;
+			// answers other than "ack" are deviations. The histories open one
+			// connection per request on the code as it stands, so the bound covers
+			// every combination; it keeps the space finite for code that reconnects.
+			devs := 2
+			if run.Thorough() {
+				devs = 3
+			}
+			st := mc.Explore(mc.Options{MaxDeviations: devs}, func(c *mc.Ctx) {
 				vos.Reset()
 				if su.restoreAt == 0 {
 					vos.Mkdir("/vfs/audit")
